@@ -460,7 +460,10 @@ class HelicityAmplitudeBuilder:
 
         amplitude = self.config.spin_alignment.formulate_amplitude(self.reaction)
         spin_projections = collect_spin_projections(self.reaction)
-        intensity = PoolSum(sp.Abs(amplitude) ** 2, *spin_projections.items())
+        intensity = PoolSum(
+            sp.Abs(amplitude) ** 2,
+            *((symbol, sorted(values)) for symbol, values in spin_projections.items()),
+        )
         self.__define_missing_amplitudes(intensity)
         return intensity
 
